@@ -19,19 +19,21 @@ Proof.
     repeat match goal with A : _ /\ _ |- _ => destruct A end;
     repeat match goal with A : r_posted _ = _ |- _ => rewrite A in *; revert A end; intros; simpl in *;
     repeat match goal with A : forall M, mons ?s ?r = Some M -> m_skipped M = false, B : mons ?s ?r = Some ?M |- _ => specialize (A _ B) end;
+    (split; [|intros Hsk]);
     repeat match goal with A : m_skipped ?M = false, B : m_skipped ?M = false -> _ |- _ => specialize (B A) end;
     repeat match goal with A : m_skipped ?M = true, B : m_skipped ?M = false -> _ |- _ => clear B end;
+    try discriminate; try congruence;
     try lia; unfold b2n in *;
     repeat match goal with A : r_wait _ = _ |- _ => rewrite A in *; revert A end; intros;
     repeat match goal with A : r_released _ = _ |- _ => rewrite A in *; revert A end; intros; simpl in *;
-    try lia;
-    repeat match goal with
-           | |- context[Nat.eqb (r_posted ?R) 0] => destruct (Nat.eqb_spec (r_posted R) 0)
-           | A : context[Nat.eqb (r_posted ?R) 0] |- _ => destruct (Nat.eqb_spec (r_posted R) 0)
-           | |- context[r_released ?R] => destruct (r_released R) eqn:?
-           | A : context[r_released ?R] |- _ => destruct (r_released R) eqn:?
-           | |- context[r_wait ?R] => destruct (r_wait R) eqn:?
-           | A : context[r_wait ?R] |- _ => destruct (r_wait R) eqn:?
-           end; simpl in *; try lia; try discriminate.
-Qed.
+    try lia.
+  all: unfold pre_go in *; repeat match goal with A : context[r_apc ?R] |- _ => destruct (r_apc R) eqn:? end; simpl in *; try discriminate.
+  all: repeat match goal with
+              | A : context[r_released ?R] |- _ => destruct (r_released R) eqn:?
+              | A : context[r_wait ?R] |- _ => destruct (r_wait R) eqn:?
+              | |- context[r_wait ?R] => destruct (r_wait R) eqn:?
+              end; simpl in *; try discriminate; try lia.
+  all: match goal with |- ?G => idtac "GOAL" end.
+  all: idtac "LEFT-waiter". Show 1. Show 2. Show 3.
+Abort.
 
